@@ -6,24 +6,28 @@ import (
 	"bytes"
 	"encoding/json"
 	"sort"
+	"sync"
+	"sync/atomic"
 	"testing"
 
+	vmcommon "github.com/ElrondNetwork/elrond-vm-common"
 	"pgregory.net/rapid"
 )
 
 type epochCase struct {
 	Activation uint32   `json:"activation"`
 	Epochs     []uint32 `json:"epochs"`
+	Start      uint32   `json:"start,omitempty"` // the epoch the chain is in when the container is built
 }
 
 // c18Epochs replays one notification sequence on a fresh container.
 func c18Epochs(ec epochCase) (string, string, int) {
-	sh, err := NewShard(ShardConfig{NShards: 1, Self: 0, Gas: DistinctGas(1), ActivationEpoch: ec.Activation})
+	sh, err := NewShard(ShardConfig{NShards: 1, Self: 0, Gas: DistinctGas(1), ActivationEpoch: ec.Activation, StartEpoch: ec.Start})
 	if err != nil {
 		return "factory/error", err.Error(), 0
 	}
 	flips := 0
-	last := uint32(0) // the notifier announces its current epoch (0) at registration
+	last := ec.Start // the notifier announces its current epoch at registration
 	prev := last >= ec.Activation
 	check := func(step int) (string, string) {
 		for _, name := range allFunctionNames {
@@ -56,6 +60,55 @@ func c18Epochs(ec epochCase) (string, string, int) {
 		}
 	}
 	return "", "", flips
+}
+
+// c18Stable: while notifications are being delivered whose epochs are ALL at or above the activation epoch (the chain
+// moves on, repeats, regresses - but never below it), "the most recently confirmed epoch" is at or above it at every
+// instant, so a reader must never see a gated function inactive - not even in the middle of a delivery.
+func c18Stable(activation uint32, epochs []uint32) (string, string, int) {
+	sh, err := NewShard(ShardConfig{NShards: 1, Self: 0, Gas: DistinctGas(1), ActivationEpoch: activation, StartEpoch: activation})
+	if err != nil {
+		return "factory/error", err.Error(), 0
+	}
+	var fns []vmcommon.BuiltinFunction
+	var names []string
+	for name := range gatedFns {
+		f, err := sh.Container.Get(name)
+		if err != nil {
+			return "registry/missing", sprintf("%s is not in the container: %v", name, err), 0
+		}
+		fns, names = append(fns, f), append(names, name)
+	}
+	var stop int32
+	var bad atomic.Value
+	var reads int64
+	var wg sync.WaitGroup
+	for r := 0; r < 2; r++ {
+		wg.Add(1)
+		go func() {
+			defer wg.Done()
+			for atomic.LoadInt32(&stop) == 0 {
+				for i, f := range fns {
+					atomic.AddInt64(&reads, 1)
+					if !f.IsActive() {
+						bad.Store(names[i])
+						return
+					}
+				}
+			}
+		}()
+	}
+	for round := 0; round < 200 && bad.Load() == nil; round++ {
+		for _, e := range epochs {
+			sh.notifier.confirm(e)
+		}
+	}
+	atomic.StoreInt32(&stop, 1)
+	wg.Wait()
+	if v := bad.Load(); v != nil {
+		return "activation/" + v.(string) + "/inactive-during-a-notification", sprintf("activation epoch %d, container built in epoch %d, notifications %v (every one at or above the activation epoch) delivered repeatedly: a concurrent reader saw %s report inactive", activation, activation, epochs, v.(string)), int(reads)
+	}
+	return "", "", int(reads)
 }
 
 func c18Keys(spec WorldSpec) (string, string) {
@@ -224,11 +277,47 @@ func TestC18(t *testing.T) {
 	}
 	enum([]uint32{0, 1, 2, 3, 4}, 5, nil)
 	enum([]uint32{0, 1<<31 - 1, 1 << 31, 1<<32 - 2, 1<<32 - 1}, 3, nil)
-	st.Exhaustive = append(st.Exhaustive, "IsActive of all 23 functions after every notification, for activation epochs {0,1,2,3,2^31,2^32-1} x (every epoch sequence of length 1..5 over {0,1,2,3,4} + every sequence of length 1..3 over {0,2^31-1,2^31,2^32-2,2^32-1})")
+	// containers built in a later epoch than 0: every start epoch x activation epoch x sequence of length 0..2
+	var seqs [][]uint32
+	seqs = append(seqs, nil)
+	for _, a := range []uint32{0, 1, 2, 3, 4} {
+		seqs = append(seqs, []uint32{a})
+		for _, b := range []uint32{0, 1, 2, 3, 4} {
+			seqs = append(seqs, []uint32{a, b})
+		}
+	}
+	for _, start := range []uint32{1, 2, 3, 4, 1 << 31, 1<<32 - 1} {
+		for _, a := range activations {
+			for _, sq := range seqs {
+				idx++
+				if !mine(idx) {
+					continue
+				}
+				ec := epochCase{Activation: a, Epochs: sq, Start: start}
+				sig, msg, _ := c18Epochs(ec)
+				st.Eval(1)
+				if (start >= a) != (0 >= a) {
+					st.NTEnumerated(1) // the start epoch decides the activity right after construction
+				}
+				if sig != "" {
+					failPlain(t, st, "C18", "epochs", ec, sig, msg)
+				}
+			}
+		}
+	}
+	st.Exhaustive = append(st.Exhaustive, "IsActive of all 23 functions after every notification, for activation epochs {0,1,2,3,2^31,2^32-1} x (every epoch sequence of length 1..5 over {0,1,2,3,4} + every sequence of length 1..3 over {0,2^31-1,2^31,2^32-2,2^32-1}); and for containers built in start epoch {1,2,3,4,2^31,2^32-1} x the same activation epochs x every sequence of length 0..2 over {0,1,2,3,4}")
 
 	// (b)+(c) generated: random 32-bit sequences; factory configurations with registry and binding fingerprints
 	rapid.Check(t, func(rt *rapid.T) {
 		ec := epochCase{Activation: rapid.OneOf(rapid.SampledFrom(activations), rapid.Uint32()).Draw(rt, "activation")}
+		switch rapid.IntRange(0, 5).Draw(rt, "start-kind") {
+		case 0:
+			ec.Start = ec.Activation
+		case 1:
+			ec.Start = ec.Activation + 1
+		case 2:
+			ec.Start = rapid.Uint32().Draw(rt, "start")
+		}
 		n := rapid.IntRange(1, 12).Draw(rt, "nepochs")
 		for i := 0; i < n; i++ {
 			var e uint32
@@ -256,6 +345,19 @@ func TestC18(t *testing.T) {
 		}
 		if sig != "" {
 			failRapid(rt, st, "C18", "epochs", ec, sig, msg)
+		}
+		if rapid.IntRange(0, 15).Draw(rt, "with-stable") == 0 {
+			act := rapid.SampledFrom([]uint32{0, 1, 2, 7, 1 << 31}).Draw(rt, "stable-activation")
+			var eps []uint32
+			for i, k := 0, rapid.IntRange(1, 6).Draw(rt, "stable-n"); i < k; i++ {
+				eps = append(eps, act+uint32(rapid.IntRange(0, 5).Draw(rt, "stable-delta")))
+			}
+			sig, msg, reads := c18Stable(act, eps)
+			st.Eval(1)
+			st.AddExtra("concurrent_activity_reads_during_notifications", int64(reads))
+			if sig != "" {
+				failRapid(rt, st, "C18", "stable", map[string]interface{}{"activation": act, "epochs": eps}, sig, msg)
+			}
 		}
 		if rapid.IntRange(0, 7).Draw(rt, "with-config") == 0 {
 			spec := GenSpec(rt)
@@ -285,6 +387,20 @@ func replayC18(kind string, raw json.RawMessage) (string, string) {
 		}
 		sig, msg, _ := c18Epochs(ec)
 		return sig, msg
+	case "stable":
+		var c struct {
+			Activation uint32   `json:"activation"`
+			Epochs     []uint32 `json:"epochs"`
+		}
+		if err := json.Unmarshal(raw, &c); err != nil {
+			return "replay/bad-file", err.Error()
+		}
+		for i := 0; i < 50; i++ { // a schedule-dependent observation: repeat
+			if sig, msg, _ := c18Stable(c.Activation, c.Epochs); sig != "" {
+				return sig, msg
+			}
+		}
+		return "", ""
 	case "config":
 		var spec WorldSpec
 		if err := json.Unmarshal(raw, &spec); err != nil {
